@@ -83,11 +83,14 @@ MixtureOfDiscreteDistributions::MixtureOfDiscreteDistributions(const MixtureOfDi
     probas_.push_back(mdd.probas_[i]);
     vdd_.push_back(unique_ptr<DiscreteDistributionInterface>(mdd.vdd_[i]->clone()));
     vNestedPrefix_.push_back(mdd.vNestedPrefix_[i]);
+    shareNestedConstraints_(*mdd.vdd_[i], *vdd_[i]);
   }
 }
 
 MixtureOfDiscreteDistributions& MixtureOfDiscreteDistributions::operator=(const MixtureOfDiscreteDistributions& mdd)
 {
+  if (this == &mdd)
+    return *this;
   AbstractDiscreteDistribution::operator=(mdd);
   vdd_.clear();
   probas_.clear();
@@ -98,6 +101,7 @@ MixtureOfDiscreteDistributions& MixtureOfDiscreteDistributions::operator=(const 
     probas_.push_back(mdd.probas_[i]);
     vdd_.push_back(unique_ptr<DiscreteDistributionInterface>(mdd.vdd_[i]->clone()));
     vNestedPrefix_.push_back(mdd.vNestedPrefix_[i]);
+    shareNestedConstraints_(*mdd.vdd_[i], *vdd_[i]);
   }
 
   return *this;
